@@ -92,7 +92,7 @@ pub fn run(ctx: &Ctx, ev: &mut Ev) {
     if ctx.want("random") {
         let mut r = ctx.rng(13);
         let alpha: Vec<u8> = b"abcdefghijklmnopqrstuvwxyzABCXYZ0123456789-_:. \t\n\x0c\r\x0b\x00\x80".to_vec();
-        let n = ctx.budget(400_000, 10_000_000);
+        let n = ctx.budget(400_000, 40_000_000);
         for _ in 0..n {
             let s: Vec<u8> = if r.chance(2) { (0..r.below(25)).map(|_| *r.pick(&alpha)).collect() } else {
                 // splice two labels / mutate a label twice
